@@ -6,15 +6,18 @@ V=${VERIF_HOME:-/verif}
 D=$(realpath $1); shift
 IDS=${@:-$(ls $D)}
 export GOFLAGS=-mod=mod GOPROXY=off GOSUMDB=off GOTOOLCHAIN=local
-for p in $IDS; do
+for spec in $IDS; do
+  p=${spec%%:*}; props=${spec#*:}; [ "$props" = "$spec" ] && props=$p   # "C02:C03,C14" = patch C02, checks C03 and C14
   [ -f $D/$p/patch.diff ] || continue
   W=/tmp/harm-confirm-$p-$$
   git -C /repo worktree add -q --detach $W HEAD || continue
   echo "##### $p"
   (cd $W && git apply $D/$p/patch.diff && go build ./... && echo "builds") || echo "patch does not apply / build fails"
-  (cd $V && VERIF_NOSEARCH=1 VERIF_REPO=$W ./check $p --tier quick 2>&1 | grep -v "^KNOWN" | tail -4 | cut -c1-600)
-  r=$(ls -t $V/replays/$p-*.json 2>/dev/null | head -1)
-  if [ -n "$r" ] && [ $(( $(date +%s) - $(stat -c %Y $r) )) -lt 900 ]; then
+  for q in $(echo $props | tr ',' ' '); do
+  echo "--- patch $p, check $q"
+  (cd $V && VERIF_NOSEARCH=1 VERIF_REPO=$W ./check $q --tier quick 2>&1 | grep -v "^KNOWN" | tail -4 | cut -c1-600)
+  r=$(ls -t $V/replays/$q-*.json 2>/dev/null | head -1)
+  if [ -n "$r" ] && [ $(( $(date +%s) - $(stat -c %Y $r) )) -lt 120 ]; then
     python3 -c "
 import json,sys
 d=json.load(open('$r'))
@@ -22,6 +25,7 @@ for b in d.get('broken',[])[:6]: print('   BROKEN:', b.get('what','')[:120], '|'
 if d.get('op'): print('   INPUT:', str(d.get('op'))[:200], '|', str(d.get('reason'))[:200])
 "
   fi
+  done
   git -C /repo worktree remove --force $W
 done
 $V/tools/rebuild.sh | tail -1
